@@ -556,14 +556,14 @@ class ExcelInPython:
         return date.year
 
     def _iferror(self, condition_function, when_error):
+        # запасное значение вычисляется только когда оно понадобилось
         try:
             cell = condition_function()
-            if self._find_error_in_list([cell]):
-                return when_error
-            else:
+            if not self._find_error_in_list([cell]):
                 return cell
         except:
-            return when_error
+            pass
+        return when_error() if callable(when_error) else when_error
     
     def _when_cell_is_empty_cast_to_zero(self, iterable: List):
         return [0 if isinstance(i, self.EmptyCell) else i for i in iterable]
